@@ -701,7 +701,8 @@ def range_history(draw, shard, tier):
     ops = []
     for _ in range(draw(st.integers(2, 8))):
         k = draw(st.sampled_from(["set_inclusive", "set_start", "set_stop", "set_step", "reverse", "reverse",
-                                  "iterate_partially", "len", "contains", "clone_range"]))
+                                  "iterate_partially", "len", "contains", "clone_range", "take_iter", "take_iter",
+                                  "advance", "advance", "advance", "zip", "nested", "product"]))
         op = dict(op=k)
         if k == "set_inclusive":
             op["value"] = draw(st.booleans())
@@ -713,6 +714,8 @@ def range_history(draw, shard, tier):
             op["take"] = draw(st.integers(0, 5))
         elif k == "clone_range":
             op["how"] = draw(st.sampled_from(gd.CLONE_MODES))
+        elif k == "advance":
+            op.update(which=draw(st.integers(0, 3)), k=draw(st.integers(1, 6)))
         elif k == "contains":
             op["probe"] = draw(st.sampled_from(["start", "stop", "start-1", "start+1", "stop-1", "stop+1", "mid"]))
             op["S"] = draw(lab)
@@ -787,22 +790,28 @@ def check_range_history(case):
     base = at(us, 0, "TAI")
     invariant("construction")
     mutated = False
+    live = []  # iterators taken from the range and still alive: [iterator, position, expected list]
+    concurrent = False
     for op in case["ops"]:
         k = op["op"]
         sign = 1 if m["step"] > 0 else -1
         if k == "set_inclusive":
+            live.clear()
             rng.inclusive = op["value"]
             m["inclusive"] = op["value"]
             mutated = True
         elif k == "set_stop":
+            live.clear()
             m["stop"] = m["start"] + _span_of(op, m["step"], sign)
             rng.stop = at(us, m["stop"], op["S"])
             mutated = True
         elif k == "set_start":
+            live.clear()
             m["start"] = m["stop"] - _span_of(op, m["step"], sign)
             rng.start = at(us, m["start"], op["S"])
             mutated = True
         elif k == "set_step":
+            live.clear()
             m["step"] = sign * op["step"]
             if abs(m["stop"] - m["start"]) // abs(m["step"]) > 60:
                 m["step"] = sign * max(op["step"], abs(m["stop"] - m["start"]) // 40 + 1)
@@ -812,12 +821,50 @@ def check_range_history(case):
             if m["stop"] == m["start"]:
                 done.append("reverse(skipped: empty span)")
                 continue
+            live.clear()
             rng.start, rng.stop, rng.step = rng.stop, rng.start, -rng.step
             m["start"], m["stop"], m["step"] = m["stop"], m["start"], -m["step"]
             mutated = True
         elif k == "clone_range":
             # the range object itself goes through pickle / copy / deepcopy: same range
             rng = gd.clone(rng, op["how"])
+            live.clear()
+        elif k == "take_iter":
+            live.append([iter(rng), 0, model()])
+        elif k == "advance":
+            if live:
+                # an iterator taken earlier goes on where IT stopped, whatever was iterated / listed in between
+                ent = live[op["which"] % len(live)]
+                for _ in range(op["k"]):
+                    got = next(ent[0], None)
+                    want = ent[2][ent[1]] if ent[1] < len(ent[2]) else None
+                    got_us = None if got is None else td_us(got - base)
+                    if got_us != want:
+                        raise Violation("range-concurrent-iterators",
+                                        f"DateRange after {done + [k]}: iterator #{live.index(ent)} resumed at position {ent[1]} gives "
+                                        f"{got_us} us, expected {want} us (of {len(ent[2])} dates); {len(live)} iterators alive, "
+                                        f"the range was listed in between")
+                    ent[1] += 1
+                concurrent = True
+        elif k in ("zip", "nested", "product"):
+            want = model()
+            if len(want) <= 12:
+                if k == "zip":
+                    got = [(td_us(a - base), td_us(b - base)) for a, b in zip(rng, rng)]
+                    exp = [(x, x) for x in want]
+                elif k == "nested":
+                    got = [(td_us(a - base), td_us(b - base)) for a in rng for b in rng]
+                    exp = [(x, y) for x in want for y in want]
+                else:
+                    import itertools
+
+                    got = [(td_us(a - base), td_us(b - base)) for a, b in itertools.product(rng, rng)]
+                    exp = [(x, y) for x in want for y in want]
+                if got != exp:
+                    raise Violation("range-concurrent-iterators",
+                                    f"DateRange after {done + [k]}: {k}(r, r) gives {len(got)} pairs {got[:4]}, expected "
+                                    f"{len(exp)} pairs {exp[:4]}")
+                concurrent = concurrent or len(want) > 1
         elif k == "iterate_partially":
             it = iter(rng)
             for _ in range(op["take"]):
@@ -834,7 +881,7 @@ def check_range_history(case):
         done.append(k)
         invariant(k)
     cls = [f"eop:{cfg()}"] + sorted({o["op"] for o in case["ops"]})
-    return dict(nt=mutated, cls=cls + _cl)
+    return dict(nt=mutated or concurrent, cls=cls + _cl + (["several-iterations-alive-at-once"] if concurrent else []))
 
 
 # ------------------------------------------------------------------ 9  constructors
@@ -1032,7 +1079,7 @@ FACETS = [
           rule="negative step, non-dividing step, mixed labels or instant within 90 s of 0h UTC",
           quick=(8, 500), thorough=(32, 2500)),
     Facet("daterange_history", range_history, check_range_history, setup=setup_conv,
-          rule="the range object was modified in place at least once (inclusive / start / stop / step / reversed)",
+          rule="the range object was modified in place at least once, or several iterations over it were alive at once",
           quick=(4, 300), thorough=(16, 2500)),
     Facet("clone", clone_case, check_clone, setup=setup_conv,
           rule="every case: a Date (alone or held by a list / dict / DateRange) after pickle / copy / deepcopy",
